@@ -90,14 +90,21 @@ PALETTES = [
     ([], [], [1, 2, 3]),
     ([9, 6, 3, 1], [1, 3, 6, 9], [0, 2, 4, 5, 7, 8]),
     ([1, 9, 5], [5, 1, 9], [0, 2, 3, 4, 6, 7, 8]),
+    # zero as the ONLY barrier value (a list that is "falsy" as a whole), as int, float and negative zero; walls hold
+    # 0 / -0.0, open cells are non-zero
+    ([0], [0], [1, 2, 3, 4]),
+    ([0.0], [0, -0.0], [1, 2.5, -1, 3]),
+    ([-0.0], [0, -0.0], [5, 1, -2, 0.5]),
+    ([0, 0.0], [0], [7, 1, 2]),
 ]
+NP = len(PALETTES)
 
 
 def realise(cross, H, W, style):
-    """surface values for a crossable mask.  style >= 0: palette style % 10, every third non-crossable cell
-    (phase style // 10) is NaN instead of a barrier value; style < 0: palette (-style - 1) % 10, no NaN cells
+    """surface values for a crossable mask.  style >= 0: palette style % NP, every third non-crossable cell
+    (phase style // NP) is NaN instead of a barrier value; style < 0: palette (-style - 1) % NP, no NaN cells
     (unless the barrier list is empty).  Crossable cells carry several distinct non-barrier values."""
-    pal, phase, nan_ok = (style % 10, (style // 10) % 3, True) if style >= 0 else ((-style - 1) % 10, 0, False)
+    pal, phase, nan_ok = (style % NP, (style // NP) % 3, True) if style >= 0 else ((-style - 1) % NP, 0, False)
     barriers, placed, free = PALETTES[pal]
     vals = []
     for r in range(H):
@@ -141,7 +148,7 @@ def layout_jobs(H, W, conns, events=False, snap=0, tag="", desc=False, descx=Fal
                 for conn in conns:
                     if of > 1 and pick.randrange(of) >= keep:
                         continue
-                    style = pick.randrange(30)
+                    style = pick.randrange(3 * NP)
                     jobs.append(mkjob(H, W, cross, conn, yax, xax,
                                       (centre(yax, s // W), centre(xax, s % W)),
                                       (centre(yax, g // W), centre(xax, g % W)),
@@ -220,7 +227,7 @@ def maze_jobs(rng, n, sizes, events=False, f32=True):
         if not f32:
             dtype = None
         jobs.append(mkjob(H, W, cross, conn, fy, fx, pt(s), pt(g), snapS, snapG, events=events, tag="maze",
-                          style=rng.randrange(30), dtype=dtype))
+                          style=rng.randrange(3 * NP), dtype=dtype))
     return jobs
 
 
@@ -305,7 +312,7 @@ def long_jobs(rng, shapes, extra=0):
                     a, b = (s0, far) if len(jobs) % 3 else (far, s0)
                     jobs.append(mkjob(H, W, cross, conn, yax, xax, (centre(yax, a[0]), centre(xax, a[1])),
                                       (centre(yax, b[0]), centre(xax, b[1])), tag="long:" + kind,
-                                      style=rng.randrange(30)))
+                                      style=rng.randrange(3 * NP)))
     return jobs
 
 
@@ -354,7 +361,7 @@ def coord_jobs(H, W, systems, disps=(0, 3, -3), conn=8, cross=None):
                     for dx in disps:
                         sp = (centre(yax, r) + dy * yax["s"] // 10, centre(xax, c) + dx * xax["s"] // 10)
                         gp = (centre(yax, gr), centre(xax, gc))
-                        st = (len(jobs) * 7) % 30
+                        st = (len(jobs) * 7) % (3 * NP)
                         jobs.append(mkjob(H, W, cross, conn, yax, xax, sp, gp, tag="coords:" + name, style=st))
                         if dy == 0 and dx == 0:
                             # the displaced point as goal
@@ -380,13 +387,13 @@ def snap_jobs(shapes):
                         for r in range(H)]
                 pc = (centre(yax, cr), centre(xax, cc))
                 pt = (centre(yax, tr), centre(xax, tc))
-                jobs.append(mkjob(H, W, only, 8, yax, xax, pc, pt, snapS=1, snapG=0, tag="snap_start", style=-1 - (ci + ti) % 10))
-                jobs.append(mkjob(H, W, only, 4, yax, xax, pt, pc, snapS=0, snapG=1, tag="snap_goal", style=-1 - (ci * 3 + ti) % 10))
+                jobs.append(mkjob(H, W, only, 8, yax, xax, pc, pt, snapS=1, snapG=0, tag="snap_start", style=-1 - (ci + ti) % NP))
+                jobs.append(mkjob(H, W, only, 4, yax, xax, pt, pc, snapS=0, snapG=1, tag="snap_goal", style=-1 - (ci * 3 + ti) % NP))
                 if more != only:
                     far = max(((r, c) for r in range(H) for c in range(W) if more[r][c]),
                               key=lambda p: (p[0] - tr) ** 2 + (p[1] - tc) ** 2)
                     pf = (centre(yax, far[0]), centre(xax, far[1]))
-                    jobs.append(mkjob(H, W, more, 8, yax, xax, pc, pf, snapS=1, snapG=1, tag="snap_more", style=(ci * 7 + ti) % 30))
+                    jobs.append(mkjob(H, W, more, 8, yax, xax, pc, pf, snapS=1, snapG=1, tag="snap_more", style=(ci * 7 + ti) % (3 * NP)))
     return jobs
 
 
@@ -397,17 +404,23 @@ DTYPES = ["int8", "uint8", "int16", "int32", "int64", "uint64", "float32", "floa
 # that are NOT representable in the dtype (they must match nothing) next to representable ones, out of order;
 # 16777217 / 16777216 differ only beyond float32 precision.
 INT_PALETTES = {
-    "int8": [([100, -7, 300, 2.5, -129], [-7, 100], [0, 1, 2, -1, 50, 127, -128, 44]),
+    "int8": [([0], [0], [1, -1, 2, 127]),
+             ([100, -7, 300, 2.5, -129], [-7, 100], [0, 1, 2, -1, 50, 127, -128, 44]),
              ([3, 1], [1, 3], [0, 2, 4, -3])],
-    "uint8": [([200, 7, 300, -1, 2.5], [7, 200], [0, 1, 2, 3, 100, 255, 44]),
+    "uint8": [([0.0], [0], [1, 2, 255, 9]),
+              ([200, 7, 300, -1, 2.5], [7, 200], [0, 1, 2, 3, 100, 255, 44]),
               ([9, 256, 4], [4, 9], [0, 1, 5, 8, 10])],
-    "int16": [([30000, -7, 40000, 0.5], [-7, 30000], [0, 1, -1, 300, -300, 32767]),
+    "int16": [([-0.0], [0], [1, -1, 300]),
+              ([30000, -7, 40000, 0.5], [-7, 30000], [0, 1, -1, 300, -300, 32767]),
               ([5, 1, 5], [1, 5], [0, 2, 3, 4])],
-    "int32": [([16777217, 7, -3, 2 ** 31, 1.5], [7, 16777217, -3], [16777216, 16777218, 0, 1, 8, -4]),
+    "int32": [([0], [0], [1, 2, -7]),
+              ([16777217, 7, -3, 2 ** 31, 1.5], [7, 16777217, -3], [16777216, 16777218, 0, 1, 8, -4]),
               ([2, 1], [1, 2], [0, 3, 4])],
-    "int64": [([2 ** 40 + 1, 16777217, -5, 0.25], [-5, 16777217, 2 ** 40 + 1], [2 ** 40, 16777216, 0, 1, 6, -6]),
+    "int64": [([0, 0], [0], [1, 2 ** 40, -3]),
+              ([2 ** 40 + 1, 16777217, -5, 0.25], [-5, 16777217, 2 ** 40 + 1], [2 ** 40, 16777216, 0, 1, 6, -6]),
               ([8, 3], [3, 8], [0, 1, 2, 4])],
-    "uint64": [([16777217, 2 ** 40 + 1, -1, 7.5], [16777217, 2 ** 40 + 1], [2 ** 40, 16777216, 0, 1, 7, 8]),
+    "uint64": [([0.0], [0], [1, 2, 2 ** 40]),
+               ([16777217, 2 ** 40 + 1, -1, 7.5], [16777217, 2 ** 40 + 1], [2 ** 40, 16777216, 0, 1, 7, 8]),
                ([6, 2], [2, 6], [0, 1, 3, 5])],
 }
 FLOAT_EXTRA = ([0.1, 7, 2.5], [7, 2.5], [0.1, 1, 2, 0.2, 2.25])     # 0.1 is a wall in float64, matches nothing in float32
@@ -427,7 +440,8 @@ def variant_jobs(rng, pool, n, dtypes=None):
         j["layout"] = LAYOUTS[k % len(LAYOUTS)]
         j["dtype"] = dt = dtypes[(k // len(LAYOUTS) + k) % len(dtypes)]
         if dt in INT_PALETTES or rng.random() < 0.3:
-            barriers, placed, free = rng.choice(INT_PALETTES[dt]) if dt in INT_PALETTES else FLOAT_EXTRA
+            barriers, placed, free = (rng.choice(INT_PALETTES[dt]) if dt in INT_PALETTES
+                                      else rng.choice([FLOAT_EXTRA, ([-0.0], [0, -0.0], [1, 0.5, -3]), ([0], [0.0], [2, 4])]))
             ph = rng.randrange(7)
             j["vals"] = [[(free[(i * 3 + ph) % len(free)] if cross[i // W][i % W] else placed[(i * 5 + ph) % len(placed)])
                           for i in range(r * W, (r + 1) * W)] for r in range(H)]
@@ -533,7 +547,7 @@ def process(ctx, tally, groups, name, interp=False, chunk=40000, flush_at=120000
         if not jobs:
             return
         # few worker processes / JVMs for small batches: every process pays import + JIT (~5 CPU-s) once
-        np_ = nproc or (16 if len(jobs) > 100000 else (8 if len(jobs) > 8000 else 4))
+        np_ = nproc or (16 if len(jobs) > 100000 else (8 if len(jobs) > 30000 else 4))
         cases = run_real(ctx, jobs, interp, np_)
         keep = [i for i, c in enumerate(cases) if not c.get("skipped")]
         if len(keep) < len(jobs):
@@ -627,7 +641,7 @@ def run(ctx):
         ctx.note("M phase skipped (VERIF_C14_SKIP_M=1)")
         return run_code(ctx, tally, rng)
     # ---- M0: the exact order itself
-    sc = surd_cases()
+    sc = surd_cases(ctx.pick(5, 7))
     v = ctx.judge("Surd_Check", sc, name="surd_order", parallel=1, count_traces=False)
     bad = [(sc[i], cl) for i, cl in v.items() if cl != "ok"]
     if bad:
@@ -651,12 +665,14 @@ def run(ctx):
     grids = ctx.pick([(3, 3)], [(3, 3), (2, 4), (2, 5), (3, 4)])
     for (H, W) in grids:
         ctx.model_check("AStar", dict(spec="Spec", invariants=INV, constants=dict(
-            H=H, W=W, CONNS={4, 8}, MUT="none")), "astar_%dx%d" % (H, W),
+            H=H, W=W, CONNS={4, 8}, MUT="none")), "astar_%dx%d" % (H, W), workers=ctx.pick(6, 16),
             coverage=(H * W == 9 and ctx.tier == "thorough"))
     ctx.model_check("AStar", dict(spec="FairSpec", invariants=["TypeOK"], properties=["Termination"],
                                   constants=dict(H=2, W=3, CONNS={4, 8}, MUT="none")), "astar_2x3_termination",
                     workers=2)
     for mut, inv in TWINS:
+        if mut == "hsquared" and ctx.tier == "quick":
+            continue        # needs the 2x4 grid (20 CPU-s): thorough only
         # smallest grids on which TLC rejects the twin (hsquared survives every 2x3 layout)
         H, W = (2, 4) if mut == "hsquared" else (2, 3)
         ctx.model_check("AStar", dict(spec="Spec", invariants=inv, constants=dict(
@@ -667,18 +683,18 @@ def run(ctx):
 
 def run_code(ctx, tally, rng):
     # ---- R + T through the compiled public function
-    # quick: a seeded fifth of the 3x3 space (thorough: all of it, and 2x4, 2x5)
+    # quick: a seeded tenth of the 3x3 space (thorough: all of it, and 2x4, 2x5)
     rgrids = ctx.pick([(3, 3)], [(3, 3), (2, 4), (2, 5)])
-    k, of = ctx.pick((1, 5), (1, 1))
+    k, of = ctx.pick((1, 10), (1, 1))
     groups = [("R", layout_jobs(H, W, (4, 8), tag="replay_layouts", desc=(H == 2), keep=k, of=of, seed=ctx.seed))
               for (H, W) in rgrids]
-    # snapping on the 3x3 space (quick: a seeded twelfth)
-    k, of = ctx.pick((1, 12), (1, 1))
+    # snapping on the 3x3 space (quick: a seeded sixteenth)
+    k, of = ctx.pick((1, 16), (1, 1))
     groups.append(("R-snap", layout_jobs(3, 3, (8,), snap=1, tag="replay_snap", descx=True, keep=k, of=of, seed=ctx.seed)))
     # beyond the exhaustive scope
     sizes = [(4, 4), (4, 6), (5, 5), (6, 5), (5, 7), (7, 7), (6, 6), (3, 7)]
     # float32 surfaces: quick only in the interpreted group below (a second JIT signature costs 2.5 CPU-s per process)
-    groups.append(("T-mazes", maze_jobs(rng, ctx.pick(500, 12000), sizes, f32=(ctx.tier == "thorough"))))
+    groups.append(("T-mazes", maze_jobs(rng, ctx.pick(400, 12000), sizes, f32=(ctx.tier == "thorough"))))
     cj = coord_jobs(4, 5, COORD_SYSTEMS)
     if ctx.tier == "thorough":
         cj += coord_jobs(4, 5, COORD_SYSTEMS, conn=4,
@@ -696,16 +712,16 @@ def run_code(ctx, tally, rng):
     # input variation on a seeded sample of every group above (few processes: every (dtype, layout) pair is one
     # more JIT signature, ~1 CPU-s each per process)
     pool = [j for _, js in groups for j in js]
-    # quick: compiled for three of the eight dtypes (rotating with the seed: a narrow int, a wide int, a float),
+    # quick: compiled for two of the eight dtypes (rotating with the seed: an int, a float),
     # all eight interpreted (steps pool below)
-    dts = ctx.pick([DTYPES[ctx.seed % 3], DTYPES[3 + ctx.seed % 3], DTYPES[6 + ctx.seed % 2]], DTYPES)
+    dts = ctx.pick([DTYPES[ctx.seed % 6], DTYPES[6 + ctx.seed % 2]], DTYPES)
     process(ctx, tally, [("T-variants", variant_jobs(rng, pool, ctx.pick(320, 8000), dts))], "variants",
             nproc=ctx.pick(1, 8))
     small = [j for j in pool if j["H"] * j["W"] <= 30]
     vint = variant_jobs(rng, small, ctx.pick(240, 2000))
 
-    # ---- step level: every pop of the interpreted search against the model (quick: a seeded 1/32 of 3x3)
-    k, of = ctx.pick((1, 32), (1, 1))
+    # ---- step level: every pop of the interpreted search against the model (quick: a seeded 1/48 of 3x3)
+    k, of = ctx.pick((1, 48), (1, 1))
     groups = [("R-steps", layout_jobs(3, 3, (4, 8), events=True, tag="replay_steps", desc=True, descx=True, keep=k, of=of,
                                       seed=ctx.seed))]
     if ctx.tier == "thorough":
